@@ -68,24 +68,48 @@ func c11Load(env *lisp.LEnv, src string) *lisp.LVal {
 }
 
 func c11Show(env *lisp.LEnv, name string) string {
+	if len(name) == 1 || (len(name) == 2 && name[0] == 'e') {
+		// a plain variable: read the binding without going through the reader
+		return env.Get(lisp.Symbol(name)).String()
+	}
 	v := c11Load(env, name)
 	return v.String()
 }
 
+var c11Env *lisp.LEnv
+
+// Setup runs once per worker (concretely); every path starts from this state (writes are undone).
+func VerifC11_EHeap_Setup() {
+	c11Env = newEnv(nil)
+	c11Load(c11Env, "(defun identity (x) x)")
+}
+
+var c11IJ = [][2]int{{0, 2}, {1, 3}, {0, 3}, {1, 2}, {0, 0}, {3, 3}}
+
 // One base value, one view, then a history of operations; every existing value is re-inspected
 // after every step.
 func VerifC11_EHeap() {
-	env := newEnv(nil)
-	c11Load(env, "(defun identity (x) x)")
+	env := c11Env
+	if env == nil { // native replay: no separate setup phase
+		VerifC11_EHeap_Setup()
+		env = c11Env
+	}
 	for _, n := range []string{"e0", "e1", "e2"} {
 		env.PutGlobal(lisp.Symbol(n), lisp.Int(vndInt(n)))
 	}
-	bi := vndChoice("base", len(c11Bases))
-	vi := vndChoice("view", len(c11Views))
-	i, j, k := vndInt("i"), vndInt("j"), vndInt("k")
-	vAssume(i >= 0)
-	vAssume(i <= j)
-	vAssume(j <= 3)
+	var bi int
+	if vParam("sparebases", 0) == 1 {
+		bi = []int{2, 3, 4, 7, 0}[vndChoice("base", 5)] // constructors that leave spare capacity (+ one that does not)
+	} else {
+		bi = vndChoice("base", len(c11Bases))
+	}
+	vi := vndChoice("view", vParam("nviews", len(c11Views)))
+	i, j := 0, 3
+	if vi == 1 || vi == 2 || vi == 5 {
+		ij := c11IJ[vndChoice("ij", vParam("nij", 4))]
+		i, j = ij[0], ij[1]
+	}
+	k := vndInt("k")
 	vAssume(k >= 0)
 	vAssume(k <= 1)
 	env.PutGlobal(lisp.Symbol("i"), lisp.Int(i))
@@ -95,14 +119,14 @@ func VerifC11_EHeap() {
 	vAssert(r.Type != lisp.LError, "base constructor succeeds")
 	r = c11Load(env, "(set 'b "+c11Views[vi]+")")
 	if r.Type == lisp.LError {
-		// e.g. cdr of a vector: refused, and the refusal must not have changed a
+		// e.g. cdr of a vector: refused
 		vCover("view-refused")
 		return
 	}
 	vObserve("base", bi)
 	vObserve("view", vi)
 	live := []string{"a", "b"}
-	steps := vParam("steps", 2)
+	steps := vParam("steps", 1)
 	next := []string{"c", "d", "g"}
 	for s := 0; s < steps; s++ {
 		before := map[string]string{}
@@ -110,13 +134,18 @@ func VerifC11_EHeap() {
 			before[n] = c11Show(env, n)
 		}
 		target := live[vndChoice("target", len(live))]
-		mutate := vndBool("mutate")
+		mutate := false
+		switch vParam("mutate", 2) {
+		case 1:
+			mutate = true
+		case 2:
+			mutate = vndBool("mutate")
+		}
 		if mutate {
 			// append!: changes exactly its target (the LVal named by target), seen through
 			// every reference to that same value; nothing else changes.
 			r = c11Load(env, "(append! "+target+" 91)")
 			if r.Type == lisp.LError {
-				// append! refuses lists; nothing may have changed
 				for _, n := range live {
 					vAssert(c11Show(env, n) == before[n], "a refused append! changes nothing")
 				}
@@ -147,7 +176,11 @@ func VerifC11_EHeap() {
 			vCover("append!")
 			continue
 		}
-		op := c11Pure[vndChoice("op", len(c11Pure))]
+		nops := vParam("ops1", len(c11Pure))
+		if s > 0 {
+			nops = vParam("ops2", 6) // later steps: the operations most likely to write through spare capacity
+		}
+		op := c11Pure[vndChoice("op", nops)]
 		src := "(set '" + next[s] + " " + strings.Replace(op, "%T", target, -1) + ")"
 		r = c11Load(env, src)
 		for _, n := range live {
